@@ -14,7 +14,7 @@ use proto_vulcan::operator::condu::Condu;
 use proto_vulcan::operator::conj::{Conj, DFSConj, InferredConj};
 use proto_vulcan::operator::disj::{DFSDisj, Disj};
 use proto_vulcan::operator::fresh::Fresh;
-use proto_vulcan::operator::{ClosureOperatorParam, OperatorParam};
+use proto_vulcan::operator::{ClosureOperatorParam, OperatorParam, PatternMatchOperatorParam};
 use proto_vulcan::solver::{Solve, Solver};
 use proto_vulcan::state::State;
 use proto_vulcan::stream::{LazyStream, Stream, StreamEngine, StreamIterator};
@@ -391,10 +391,14 @@ fn build_bfs_only(case: &Case, t: &Tr, alt: bool) -> Goal<TU, TE> {
                 })
                 .collect();
             let refs: Vec<&[Gl]> = arms.iter().map(|a| a.as_slice()).collect();
-            if matches!(t, Tr::Conda(_)) {
-                Conda::from_conjunctions(&refs)
-            } else {
-                Condu::from_conjunctions(&refs)
+            // the alternative build goes through the entry points the match macros use
+            // (`matcha` / `matchu`: an arm is [pattern equality, body..], so the head plays the
+            // pattern's part and an arm may have an empty body)
+            match (matches!(t, Tr::Conda(_)), alt) {
+                (true, false) => Conda::from_conjunctions(&refs),
+                (false, false) => Condu::from_conjunctions(&refs),
+                (true, true) => proto_vulcan::operator::matcha::matcha(PatternMatchOperatorParam::new(&refs)),
+                (false, true) => proto_vulcan::operator::matchu::matchu(PatternMatchOperatorParam::new(&refs)),
             }
         }
         // a conjunction body is handed over the way the surface forms do: `op { [a, b] }` is one
